@@ -25,7 +25,7 @@ CHECK = dict(
           "distinct = (model pixel set, canonical output rings); non-trivial = model result non-empty and different from every operand. "
           "thorough adds contour2 = all 4096^2 ordered pairs of 3-vertex sequences as one contour set x 2 rules, and region-bool = every "
           "distinct region a <=4-vertex contour regularizes to under either rule (7950) x 516 triangles x 6 programs."),
-    bounds=dict(quick=("contours <= 5 vertices on the 4x4 lattice (1.12M x 2 rules); 266k triangle pairs x 3 ops; rectangles of [0,3]^2: 32k "
+    bounds=dict(quick=("41k Booleans with an operand whose tolerance was raised above the other operand's feature size (rect-tolerance); contours <= 5 vertices on the 4x4 lattice (1.12M x 2 rules); 266k triangle pairs x 3 ops; rectangles of [0,3]^2: 32k "
                        "variant pairs, 140k batch triples, 746k signed fill triples, 840k depth-2 programs, 292k transformed pairs x 3 ops; 28 "
                        "comb programs of 1600+ edges; seq-asan re-runs contours <= 4 vertices, rectangle pairs, 1/6 of the batch triples and "
                        "of the transformed pairs, and the combs"),
